@@ -327,6 +327,12 @@ def replay_c(payload):
     bad = {}
     if res.get("sanitizer") or res["rc"] != 0:
         bad["sanitizer"] = res.get("sanitizer") or "exit status %s" % res["rc"]
+    if func in ("tdma_schedule", "tdma_schedule_set") and (w.get("frame_offset", 0) % 256) >= RV.DEPTH:
+        # the statement quantifies over frame offsets 0..24 (below the scheduler depth): what an offset beyond the ring does is not part of the
+        # property (the present code wraps it silently, a refusal is as good).  The counter-model is executed; only memory safety is judged.
+        return {"confirmed": bool(bad), "found_by": "model", "observed": {k: v for k, v in st.items() if k != "buckets"}, "differs": bad,
+                "expected": "frame offset %d is outside the statement's quantifier (0..%d): no sanitizer report; nothing else is judged" % (w.get("frame_offset", 0) % 256, RV.DEPTH - 1),
+                "outside_the_statements_quantifier": True, "sanitizer": res.get("sanitizer"), "cmd": res.get("cmd")}
     if "rets" in exp and st["rets"] != exp["rets"]:
         bad["ret"] = [st["rets"], exp["rets"]]
     if "cur" in exp and st.get("cur") != exp["cur"]:
